@@ -5,6 +5,7 @@
 # published under GPLv2 license
 
 from crysp.bits import *
+import os
 from crysp.poly import Poly
 from crysp.utils.operators import *
 from crysp import salsa20
@@ -32,6 +33,7 @@ class Chacha(salsa20.Salsa20):
         self.p[14:16] = v.split(32)
         maxlen = 1<<64
         i = 0
+        if os.environ.get('BDCHT_CRYSP_VERIF'): i = getattr(self,'_verif_block0',0)   # verification hook: first block index
         while i<maxlen:
             self.p[12:14] = (i&0xffffffff,i>>32)
             yield self.core(self.p,dround=self.dround)
